@@ -43,6 +43,10 @@ type Meta struct {
 	// Deterministic: the output multiset is a function of the input sequence.
 	Deterministic bool     `json:"deterministic"`
 	Features      []string `json:"features"`
+	// FinalSort is the text of the program's last operator when that is a
+	// sort with explicit keys: whatever precedes it, the output must then be
+	// in that order, i.e. a (stable) `FinalSort` of the output leaves it unchanged.
+	FinalSort string `json:"final_sort,omitempty"`
 }
 
 // Program is program text plus its metadata.
@@ -99,6 +103,21 @@ func Gen(t *rapid.T, s *Schema, o Options) Program {
 		ops = append(ops, lead)
 		n--
 	}
+	if o.SortKey != "" && !o.FiltersOnly && g.chance(35, "keytemplate") {
+		// programs whose plan depends on the declared order: the key is
+		// consumed while the stream still has that order
+		g.feat("sortkey-template")
+		if g.chance(40, "keytemplate-filter") {
+			ops = append(ops, g.filterOp(state))
+			n--
+		}
+		if !o.NoSummarize && (o.NoFork || o.NoJoin || !state.recs || g.chance(65, "keytemplate-summarize")) {
+			ops = append(ops, g.summarizeOpKey(state, true))
+		} else if !o.NoFork && !o.NoJoin && state.recs {
+			ops = append(ops, g.joinOpKey(state, true))
+		}
+		n--
+	}
 	for i := 0; i < n; i++ {
 		ops = append(ops, g.op(state, i == n-1))
 	}
@@ -106,6 +125,9 @@ func Gen(t *rapid.T, s *Schema, o Options) Program {
 		ops = append(ops, g.restore(state))
 	}
 	p := Program{Text: strings.Join(ops, " | "), Lead: lead}
+	if last := ops[len(ops)-1]; strings.HasPrefix(last, "sort ") && !strings.Contains(last, "|") && sortHasKeys(last) {
+		p.Meta.FinalSort = last
+	}
 	p.Meta.Ordered = state.ordered && g.det
 	p.Meta.Deterministic = g.det
 	for f := range g.feats {
@@ -113,6 +135,21 @@ func Gen(t *rapid.T, s *Schema, o Options) Program {
 	}
 	sort.Strings(p.Meta.Features)
 	return p
+}
+
+// sortHasKeys tells whether a sort operator text has key expressions (not only flags).
+func sortHasKeys(text string) bool {
+	fields := strings.Fields(strings.TrimPrefix(text, "sort"))
+	for i := 0; i < len(fields); i++ {
+		switch fields[i] {
+		case "-r":
+		case "-nulls":
+			i++
+		default:
+			return true
+		}
+	}
+	return false
 }
 
 func (g *G) feat(f string) { g.feats[f] = true }
@@ -714,18 +751,27 @@ func (g *G) aggExpr(s *st, ordered bool) string {
 	return out
 }
 
-func (g *G) summarizeOp(s *st) string {
+func (g *G) summarizeOp(s *st) string { return g.summarizeOpKey(s, false) }
+
+// summarizeOpKey draws a summarize; with onKey the declared sort key (or a
+// function of it) is one of the keys, usually the first.
+func (g *G) summarizeOpKey(s *st, onKey bool) string {
 	g.feat("summarize")
 	limit := 0
-	if !g.o.NoLimit && g.chance(25, "limit?") {
+	if !g.o.NoLimit && !onKey && g.chance(25, "limit?") {
 		limit = 1+Uniform(g.t, 4, "limit")
 	}
 	pre := ""
 	ordered := s.ordered && limit == 0
 	// keys
 	nk := Pick(g.t, []int{0, 1, 1, 1, 1, 2, 2, 3}, "nkeys")
-	if limit > 0 && nk == 0 {
+	if (limit > 0 || onKey) && nk == 0 {
 		nk = 1
+	}
+	keyPos := 0
+	if onKey && nk > 1 && g.chance(30, "keysecond") {
+		keyPos = 1 // the sort key is not the first group-by key
+		g.feat("by-sortkey-not-first")
 	}
 	var keys []string
 	var out []*Field
@@ -744,10 +790,14 @@ func (g *G) summarizeOp(s *st) string {
 				name = g.freshName(s)
 				text = name + ":=typeof(" + g.ref(s) + ")"
 			}
-		} else if g.o.SortKey != "" && i == 0 && g.chance(60, "bykey") {
+		} else if g.o.SortKey != "" && i == keyPos && (onKey || g.chance(60, "bykey")) {
 			// primary key = declared sort key or an order-preserving function of it
 			name = g.o.SortKey
-			switch g.intn(6, "keyfn") {
+			switch g.intn(7, "keyfn") {
+			case 6:
+				// not monotone: must not be taken for an order-preserving key
+				text = name + ":=" + pickStr(g, []string{"abs", "len", "typeof"}, "nonmono") + "(" + name + ")"
+				g.feat("by-nonmonotone(sortkey)")
 			case 0:
 				text = name + ":=floor(" + name + ")"
 				g.feat("by-floor(sortkey)")
@@ -1013,10 +1063,12 @@ func (g *G) joinLeg(s *st, key string) string {
 	return strings.Join(ops, " | ")
 }
 
-func (g *G) joinOp(s *st) string {
+func (g *G) joinOp(s *st) string { return g.joinOpKey(s, false) }
+
+func (g *G) joinOpKey(s *st, onKey bool) string {
 	g.feat("join")
 	var key string
-	if g.o.SortKey != "" && g.chance(60, "joinonkey") {
+	if g.o.SortKey != "" && (onKey || g.chance(60, "joinonkey")) {
 		key = g.o.SortKey
 		g.feat("join-on-sortkey")
 	} else {
